@@ -723,6 +723,22 @@ func checkAndPropagateArgsForUnionWithReturnT(
 
 	for idx, class := range classNames {
 		err = checkAndPropagateArgs(m, class, methodTs[idx], evalutedArgs)
+
+		// a later overload may accept what the first declaration rejects,
+		// exactly as for a receiver of a single class
+		if err != nil && methodTs[idx].HasOverloads() {
+			for i := range methodTs[idx].Overloads {
+				overloadT := &methodTs[idx].Overloads[i]
+
+				if checkAndPropagateArgs(m, class, overloadT, evalutedArgs) == nil {
+					methodTs[idx] = overloadT
+					err = nil
+
+					break
+				}
+			}
+		}
+
 		if err != nil {
 			return nil, err
 		}
